@@ -29,7 +29,7 @@ ASSUMPTIONS = ['comparison is with the frame as it was when saved (a derived fra
                'blimpy container conventions (f_start/f_stop as band edges) are not judged: get_waterfall() is judged by its header and data only']
 STARTS = ['synthetic', 'from_data', 'shape', 'loaded_fil', 'loaded_h5', 'loaded_fsel']
 OPS = ['add_noise', 'add_signal', 'get_waterfall', 'copy', 'save_fil', 'save_h5', 'reload_fil', 'reload_h5', 'get_slice', 'dedrift', 'pickle',
-       'other_frame', 'retime', 'retune']
+       'other_frame', 'retime', 'retune', 'rewrap']
 
 
 def required(tier):
@@ -299,6 +299,28 @@ def _run(stg, c, d, R):
                 ancestors.append(fr)
                 fr = stg.Frame.from_data(fr.df, fr.dt, fr.fch1 + k * fr.df, fr.ascending, marker(rng, fr.tchans, fr.fchans),
                                          waterfall=wf, t_start=float(fr.t_start), source_name=fr.source_name)
+                derived = True
+            elif op == 'rewrap':
+                # the frame's in-session Waterfall OBJECT handed to the constructor, twice: both frames hold the frame's content at
+                # the frame's frequencies, and neither the object's owner nor the first frame is changed by building the second
+                snap = snapshot(fr)
+                wf = fr.get_waterfall()
+                g1 = stg.Frame(waterfall=wf)
+                s1 = snapshot(g1)
+                g2 = stg.Frame(waterfall=wf)
+                tol32 = np.spacing(np.maximum(np.abs(snap['data']), 1e-30).astype(np.float32)).astype(np.float64)
+                for nm, g_ in (('first', g1), ('second', g2)):
+                    okd = tuple(g_.shape) == snap['shape'] and bool(np.all(np.abs(np.asarray(g_.data, dtype=np.float64) - snap['data']) <= tol32))
+                    R.check(okd, 'frame-from-waterfall-object:data:' + nm, shape=list(g_.shape))
+                    R.check(tuple(g_.shape) == snap['shape'] and bool(np.all(np.abs(g_.fs - snap['fs']) <= 1e-3 * snap['df']))
+                            and bool(g_.ascending) == snap['asc'], 'frame-from-waterfall-object:frequency-axis:' + nm)
+                after = snapshot(fr)
+                R.check(np.array_equal(after['data'], snap['data']) and np.array_equal(after['fs'], snap['fs']),
+                        'building-a-frame-from-its-waterfall-changed-the-original-frame')
+                a1 = snapshot(g1)
+                R.check(np.array_equal(a1['data'], s1['data']), 'second-frame-from-the-same-waterfall-object-changed-the-first')
+                ancestors.append(fr)
+                fr = g2
                 derived = True
             elif op == 'pickle':
                 p = newpath('pickle')
